@@ -14,6 +14,9 @@ var c19OtherKeys = []string{"secret", "xsecret_a", "secret-a", " secret_a", "sec
 
 func genC19(t *rapid.T) C19Scn {
 	s := C19Scn{TLS: rapid.Bool().Draw(t, "tls")}
+	if s.TLS && rapid.IntRange(0, 2).Draw(t, "refusing-remote") == 0 {
+		s.Remote = "refuse"
+	}
 	used := map[string]bool{}
 	n := rapid.IntRange(0, 8).Draw(t, "nparams")
 	// mixes of secret and ordinary keys in both orders; sometimes only one kind
@@ -38,7 +41,7 @@ func genC19(t *rapid.T) C19Scn {
 }
 
 func TestC19(t *testing.T) {
-	st := vx.NewStats("C19", "secrets", "remote work submissions (to an absent node, so the unit stays inspectable) with 0-8 parameters: keys from secret spellings in every letter case (incl. exactly 'secret_') and near misses "+
+	st := vx.NewStats("C19", "secrets", "remote work submissions (to an absent node, so the unit stays inspectable, or - one TLS case in three - to a real second node with a TLS control service that refuses the work type, so that its answer comes back in an error text) with 0-8 parameters: keys from secret spellings in every letter case (incl. exactly 'secret_') and near misses "+
 		"('secret', 'xsecret_a', 'secret-a', ' secret_a', 'secrets_a', long-s), values = unique 16-character markers, with or without a TLS client profile; then 0-8 operations {status plain/JSON, list, list <id>, cancel, "+
 		"force-release, restart of the work subsystem on the same data directory}; oracle: no secret value is a substring of any byte the control service ever sent; non-secret pairs are reported unchanged in RemoteParams; "+
 		"a submission with a secret and no TLS profile is answered ERROR and leaves no unit directory; non-trivial = a secret key not in lower case and >= 1 restart before a status request; distinct by canonical JSON")
